@@ -147,7 +147,9 @@ func genSessions(g *vh.Gen) {
 		}
 		stream := smtpd.GenDialogue(g, c, pool[:2+g.Intn(3)], o)
 		// a third of the sessions run with extension listeners that answer every MAIL / RCPT with an explicit defer
-		g.Emit(g.Pick("smtp", "smtp", "smtpdefer"), append(c.Fields(), vh.H(stream))...)
+		// ... and a sixth with a listener that explicitly allows every recipient: the accept rule is overridden for RCPT,
+		// the store / discard rule still decides what is stored
+		g.Emit(g.Pick("smtp", "smtp", "smtp", "smtpdefer", "smtpdefer", "smtpallow"), append(c.Fields(), vh.H(stream))...)
 	}
 }
 
@@ -184,6 +186,8 @@ func exec(kind string, in []string) []string {
 		return smtpd.Exec(in)
 	case "smtpdefer":
 		return smtpd.ExecDefer(in)
+	case "smtpallow":
+		return smtpd.ExecAllow(in)
 	case "asm":
 		return smtpd.ExecAsm(in)
 	case "wild":
